@@ -121,10 +121,26 @@ def install(tokens=False, digest="const", bins="const", caches="bypass"):
             return 1
 
         _core.register_patch(_bins.bins, _bins_stub)
+    elif bins == "record":
+
+        def _bins_record(start, stop, fmt="gff", one=True):
+            return ("BIN", start, stop, fmt, one)
+
+        _core.register_patch(_bins.bins, _bins_record)
     elif bins == "contract":
         from vlib import binstub
 
         _core.register_patch(_bins.bins, binstub.bins_contract)
+
+    # ---- S12: unbound set.union(a, b, ...) on CrossHair's set shells (C descriptor rejects the shell): same semantics
+    def _set_union(first, *others):
+        out = set()
+        for x in (first,) + others:
+            for el in x:
+                out.add(el)
+        return out
+
+    _core.register_patch(set.union, _set_union)
 
     # ---- diagnostic: count realisations of symbolic ints
     _orig_realize = _b.SymbolicInt.__ch_realize__
